@@ -6,6 +6,7 @@ mod gen_lookup;
 mod gen_lua;
 mod gen_soup;
 mod gen_src;
+mod gen_tags;
 mod gen_val;
 mod rng;
 mod tables;
@@ -82,6 +83,10 @@ fn main() -> anyhow::Result<()> {
             Ok(())
         }
         Some("glob") => core::write_out(&a.out, &gen_glob::rows(a.seed, a.n)),
+        Some("tags") => {
+            let maxlen: usize = a.rest.first().and_then(|s| s.parse().ok()).unwrap_or(3);
+            core::write_out(&a.out, &gen_tags::rows(maxlen))
+        }
         Some("flags") => core::write_out(&a.out, &gen_flags::rows(a.seed, a.n)),
         Some("lookup") => core::write_out(&a.out, &gen_lookup::rows(a.seed, a.n)),
         Some("multi") => {
